@@ -531,7 +531,16 @@ func (c *Ctx) checkLocking(prop string, protected map[string]string, exempt map[
 	}
 	for _, fn := range p.SortedFuncs() {
 		rs := req[fn]
-		entry := ast.IsExported(fn.Decl.Name.Name) || valueRef[fn] || !called[fn]
+		entry := ast.IsExported(fn.Decl.Name.Name) || valueRef[fn]
+		if !entry && !called[fn] {
+			// an unexported function nobody in the non-test build calls or references is
+			// unreachable (a test helper, or left over after its last call site was inlined),
+			// unless it can be reached through an interface declared in this package
+			entry = (ifaceMethodNames(p)[fn.Decl.Name.Name] && fn.Decl.Recv != nil) || (fn.Decl.Recv == nil && (fn.Decl.Name.Name == "init" || fn.Decl.Name.Name == "main"))
+			if !entry {
+				c.Notes = append(c.Notes, "not an entry point (unexported, no non-test caller or reference): "+fn.Name)
+			}
+		}
 		for _, r := range rs {
 			detached := strings.HasPrefix(r.Mutex, "!")
 			if !entry && !detached {
@@ -556,4 +565,20 @@ func (c *Ctx) checkLocking(prop string, protected map[string]string, exempt map[
 			}
 		}
 	}
+}
+
+// ifaceMethodNames: names of the methods of the interface types the root package declares.
+func ifaceMethodNames(p *core.Prog) map[string]bool {
+	out := map[string]bool{}
+	sc := p.Types.Scope()
+	for _, n := range sc.Names() {
+		if tn, ok := sc.Lookup(n).(*types.TypeName); ok {
+			if it, ok := tn.Type().Underlying().(*types.Interface); ok {
+				for i := 0; i < it.NumMethods(); i++ {
+					out[it.Method(i).Name()] = true
+				}
+			}
+		}
+	}
+	return out
 }
